@@ -82,6 +82,7 @@ func TestClusterDiscovery(t *testing.T) {
 	env := NewEnv(t, TempDir(t), &Gate{}, nil)
 	run := 0
 	jit := vt.StartJitter()
+	jit.Probe(func() { _, _ = env.etcdCli().Get(context.Background(), "/verif-probe") }, 500*time.Millisecond)
 	defer jit.Stop()
 	vt.EachInput(t, func(raw []byte) {
 		var in struct {
@@ -100,7 +101,7 @@ func TestClusterDiscovery(t *testing.T) {
 		unsubs := []Event{}
 		var umu sync.Mutex
 		var uwg sync.WaitGroup
-		for _, op := range in.Ops {
+		for i, op := range in.Ops {
 			switch op.Op {
 			case "reg":
 				_, un, err := env.Raw.RegisterService(ctx, "10.0.0."+op.X[1:]+":5001", 30*time.Second)
@@ -144,6 +145,29 @@ func TestClusterDiscovery(t *testing.T) {
 						s.mu.Unlock()
 					}()
 				}
+			case "churn":
+				// short-lived subscribers: each unsubscribes at the very moment the next one subscribes
+				drain := func(ch <-chan coretypes.ServiceStatus) {
+					for range ch {
+					}
+				}
+				for k := 0; k < 6; k++ {
+					actx, acancel := context.WithCancel(ctx)
+					idA, chA := h.Subscribe(actx)
+					go drain(chA)
+					time.Sleep(2 * time.Millisecond)
+					start, doneA, doneB := make(chan struct{}), make(chan struct{}), make(chan struct{})
+					go func() { <-start; acancel(); h.Unsubscribe(idA); close(doneA) }()
+					bctx, bcancel := context.WithCancel(ctx)
+					close(start)
+					idB, chB := h.Subscribe(bctx)
+					go drain(chB)
+					go func() { <-doneA; bcancel(); h.Unsubscribe(idB); close(doneB) }()
+					select {
+					case <-doneB:
+					case <-time.After(3 * time.Second): // (a stalled subscriber blocks every unsubscription: the known deviation)
+					}
+				}
 			case "unsub":
 				s := subs[op.X]
 				if s == nil {
@@ -174,6 +198,11 @@ func TestClusterDiscovery(t *testing.T) {
 					unsubs = append(unsubs, Event{"s": name, "kind": s.kind, "completed": completed, "closed": closed, "ms": time.Since(t0).Milliseconds()})
 					umu.Unlock()
 				}(op.X, s)
+			}
+			// every other schedule: a subscription that follows an unsubscription comes at once, while the dispatch loop
+			// is still handling the unsubscription (the two touch the subscriber registry at the same time)
+			if op.Op == "unsub" && run%2 == 1 && i+1 < len(in.Ops) && in.Ops[i+1].Op == "sub" {
+				continue
 			}
 			time.Sleep(120 * time.Millisecond)
 		}
